@@ -302,7 +302,7 @@ def oracle_c01(script, c_lines):
             if m.group(2) != "1":
                 return pre + "an element was written after its clear callback"
             h.clear()
-        elif o == "swap":
+        elif o in ("swap", "alt"):
             held[w[0]], aux[w[0]] = aux[w[0]], held[w[0]]
             h = held[w[0]]
             prev[w[0]] = None
@@ -620,6 +620,10 @@ def corpus(prop=None):
              c + " find 2147483647", c + " erase -2147483648", c + " fe rev 1", c + " clear", c + " clear",
              c + " ins 1 1", c + " fe fwd 0"],
             [c + " erase 1", c + " find 1", c + " fe fwd -1", c + " clear", c + " insh 1 1", c + " erase 1"],
+            # both OBJECTS used after a swap (`alt` switches the object addressed, no library call)
+            [c + " ins 1 5", c + " ins 2 3", c + " ins 3 8", c + " swap", c + " alt", c + " find 3", c + " ins 4 4",
+             c + " erase 5", c + " fe fwd -1", c + " alt", c + " ins 5 9", c + " swap", c + " erase 9", c + " ins 6 1",
+             c + " alt", c + " erase 3", c + " fe rev -1", c + " clear", c + " alt", c + " clear"],
             # swap with the (initially empty) partner tree and back
             [c + " swap", c + " ins 1 5", c + " ins 2 3", c + " ins 3 8", c + " swap", c + " find 5", c + " ins 4 1",
              c + " ins 5 9", c + " fe fwd -1", c + " swap", c + " fe rev -1", c + " erase 3", c + " find 1", c + " swap",
@@ -668,7 +672,7 @@ def random_tree_scripts(rng, cont, count, length, nkeys, maxlive, hashed, insat=
         grow = True
         for step in range(length):
             if rng.random() < 0.012:
-                sc.append("%s swap" % cont)
+                sc.append("%s %s" % (cont, rng.choice(("swap", "alt", "swap"))))
                 cnt, cnt2, live, live2 = cnt2, cnt, live2, live
                 continue
             if live >= maxlive:
